@@ -109,7 +109,8 @@ def ranking(F, rep, f):
             continue
         if re.match(r"^core::option::Option<\(.*PathSelectionData", ty):
             slots["best"] = pl["l"]
-        elif re.match(r"^core::option::Option<\(.*TransportType, i128\)>$", ty) and sum(1 for b_, i_, s_ in f.stmts() if s_["k"] == "a" and s_["lhs"] == {"l": pl["l"]}) >= 2:
+        elif re.match(r"^core::option::Option<\(.*TransportType, i128\)>$", ty) and (sum(1 for b_, i_, s_ in f.stmts() if s_["k"] == "a" and s_["lhs"] == {"l": pl["l"]}) >= 2
+                                                                                    or any(call_matches(t_, r"^core::option::Option::(get_or_insert|get_or_insert_with|insert|replace)$") and arg_ref_target(f, t_["args"][0]) == pl["l"] for b_, t_ in f.calls())):
             slots["current_key"] = pl["l"]
     rep.ob("ranking", set(slots) == {"best", "current_key"}, site(f), "accumulators `best` and `current_key` found: %s" % sorted(slots), skey(F, f, "slots"))
     if set(slots) != {"best", "current_key"}:
@@ -188,13 +189,36 @@ def ranking(F, rep, f):
                         for b2, i2, st2 in f.stmts():
                             if st2["k"] == "a" and st2["lhs"] == {"l": tl} and st2["rv"]["k"] == "agg" and len(st2["rv"]["ops"]) == 2:
                                 x |= src(st2["rv"]["ops"][1])
-                    if x and all(y[0] == "call" and y[1].endswith("BiasedRttPathSelector::sort_key") for y in x):
+                    is_sk = lambda y: y[0] == "call" and y[1].endswith("BiasedRttPathSelector::sort_key")
+                    is_mn = lambda y: y[0] == "call" and re.search(r"core::cmp::(Ord::min|min)$", y[1]) is not None
+                    if x and all(is_sk(y) for y in x):
                         out.add(b)
                     elif x and all(y[0] == "place" and y[1] == sl for y in x):
                         pass        # re-wrapping the stored value: a no-op
+                    elif x and all(is_sk(y) or is_mn(y) for y in x) and min_calls(name) is not None:
+                        # `Some(min(stored, key))` (possibly `Some(key)` on the empty arm): the
+                        # store keeps the smaller one - evaluated as "overwritten iff new < stored"
+                        out.add(b)
                     else:
                         bad.append((b, sorted(map(str, x))))
         return out, bad
+
+    def min_calls(name):
+        """blocks of `min(stored key, new key)` calls (either order) for the slot, or None when
+        some min() call in the loop body has other operands"""
+        res = set()
+        for b, t in f.calls():
+            if t["k"] == "call" and call_matches(t, r"^core::cmp::(Ord::min|min)$") and b in f.reachable(sk[0][1]["t"]):
+                a0, a1 = t["args"][0], t["args"][1]
+                if (is_key(a0) and slot_payload(a1, name)) or (is_key(a1) and slot_payload(a0, name)):
+                    res.add(b)
+                elif name == "current_key" and ((is_key(a0) and slot_payload(a1, "best")) or (is_key(a1) and slot_payload(a0, "best"))):
+                    continue
+                elif name == "best" and ((is_key(a0) and slot_payload(a1, "current_key")) or (is_key(a1) and slot_payload(a0, "current_key"))):
+                    continue
+                else:
+                    return None
+        return res
 
     def slot_value_of(v):
         def value_of(a):
@@ -235,20 +259,39 @@ def ranking(F, rep, f):
             raise Unsupported("%s at bb%d" % (a.kind, a.bb))
         return value_of
 
+    def first_wins_blocks(name):
+        """`slot.get_or_insert(key)`: stores the new key only into an empty slot"""
+        return {b for b, t in f.calls() if t["k"] == "call" and call_matches(t, r"^core::option::Option::get_or_insert$") and arg_ref_target(f, t["args"][0]) == slots[name] and is_key(t["args"][1])}
+
     for name in ("current_key", "best"):
         sl = slots[name]
         tg, badw = newkey_blocks(name)
+        fw = first_wins_blocks(name)
+        for b, t in f.calls():
+            if t["k"] == "call" and call_matches(t, r"^core::option::Option::(get_or_insert_with|insert|replace|take|get_or_insert)$") and arg_ref_target(f, t["args"][0]) == sl and b not in fw:
+                badw.append((b, [callee_names(t)[0]]))
+        if not tg and fw:
+            tg = set(fw)
         rep.ob("ranking", bool(tg) and not badw, site(f, min(tg) if tg else None), "`%s` is only ever overwritten with Some(this path's sort_key) (other sources: %s)" % (name, badw), skey(F, f, "stores-key-" + name))
         if not tg:
             continue
         try:
             paths = booltab.extract(f, target=tg, start=sk[0][1]["t"], stop=stopset)
+            mcs = min_calls(name) or set()
+            mpaths = booltab.extract(f, target=mcs, start=sk[0][1]["t"], stop=stopset) if mcs else None
+            fpaths = booltab.extract(f, target=fw, start=sk[0][1]["t"], stop=stopset) if fw else None
             bad = []
             for is_current in (False, True):
                 for cs in ("empty", "lt", "ge"):
                     for bs in ("empty", "lt", "ge"):
                         v = {"is_current": is_current, "current_key": cs, "best": bs}
                         got = booltab.evaluate(paths, slot_value_of(v))
+                        if got and mpaths is not None and booltab.evaluate(mpaths, slot_value_of(v)):
+                            got = v[name] == "lt"       # the store went through min(stored, new)
+                        if got and fpaths is not None and booltab.evaluate(fpaths, slot_value_of(v)):
+                            rest = tg - fw
+                            if not (rest and booltab.evaluate(booltab.extract(f, target=rest, start=sk[0][1]["t"], stop=stopset), slot_value_of(v))):
+                                got = v[name] == "empty"    # get_or_insert: the first value wins
                         mine = v[name]
                         want = (mine in ("empty", "lt")) and (is_current or name == "best")
                         if got != want:
@@ -315,6 +358,30 @@ def ranking(F, rep, f):
                                                 return True
                                     return False
                                 cur_b = lambda o: is_place(fsrc(o), c_l, ("0", "1"))
+
+                                def is_min_gain(o):
+                                    wl = op_base(o)
+                                    if wl is None:
+                                        return False
+                                    cs = {z[4].get("def") for z in du.origin_facts(wl, kinds=("const",)) if z[4].get("def")}
+                                    calls = [ct for cb, ct in du.origin_calls(wl)]
+                                    bins = du.origin_facts(wl, kinds=("bin",))
+                                    return cs == {M + "RTT_SWITCHING_MIN"} and len(calls) == 1 and call_matches(calls[0], r"Duration::as_nanos$") and not bins
+
+                                def cur_minus_best(o):
+                                    l = op_base(o)
+                                    if l is None:
+                                        return False
+                                    subs = [z for z in du.origin_facts(l, kinds=("bin",)) if z[4]["op"] in ("Sub", "SubWithOverflow")]
+                                    others = [z for z in du.origin_facts(l, kinds=("bin",)) if z[4]["op"] not in ("Sub", "SubWithOverflow")]
+                                    return len(subs) == 1 and not others and cur_b(subs[0][4]["a"]) and is_place(fsrc(subs[0][4]["b"]), b_l, ("0", "1", "1"))
+                                # `current_biased - best_biased >= RTT_SWITCHING_MIN` is the same test
+                                if cur_minus_best(x) and is_min_gain(y) and op in ("Ge", "Lt"):
+                                    thresholds.append(a.bb)
+                                    return le == (op == "Ge")
+                                if cur_minus_best(y) and is_min_gain(x) and op in ("Le", "Gt"):
+                                    thresholds.append(a.bb)
+                                    return le == (op == "Le")
                                 if best_plus_min(x) and cur_b(y) and op in ("Le", "Gt"):
                                     thresholds.append(a.bb)
                                     return le == (op == "Le")
